@@ -259,6 +259,8 @@ def visit(
 
                 if result is SKIP or result is False:
                     if not is_leaving:
+                        if not stack:  # skipping the root node ends the traversal
+                            break
                         path_pop()
                         continue
 
@@ -268,6 +270,8 @@ def visit(
                         if isinstance(result, Node):
                             node = result
                         else:
+                            if not stack:  # the root node has been removed
+                                break
                             path_pop()
                             continue
             else:
@@ -293,7 +297,9 @@ def visit(
             break
 
     if edits:
-        return edits[-1][1]
+        new_root = edits[-1][1]
+        # a removed root node yields None (like null in GraphQL.js)
+        return None if new_root is REMOVE or new_root is Ellipsis else new_root
 
     return root
 
